@@ -1531,6 +1531,7 @@ package decimal128
 //@ ensures isinf(d) ==> isinf(r) && sign(r) == sign(d) && lo(r) == 0 && hi(r) == ite(sign(d), 0xf800000000000000, 0x7800000000000000)
 //@ ensures !special(d) && coef(d) == 0 ==> lo(r) == 0 && hi(r) == ite(sign(d), 0x8000000000000000, 0)
 //@ ensures !special(d) && coef(d) != 0 ==> !special(r) && sign(r) == sign(d) && rs(V, bexp(r)) == coef(r) && coef(r) != 0 && NF(coef(r), bexp(r))
+//@ ensures !special(d) && coef(d) == 0 ==> !special(r) && coef(r) == 0 && sign(r) == sign(d)
 //@ loop 1: invariant rs(V, exp) == u128(sig) && u128(sig) <= M && u128(sig) != 0 && exp >= 0 && exp <= 12287
 //@ loop 1: decreases exp
 //@ loop 2: invariant rs(V, exp) == u128(sig) && u128(sig) <= M && u128(sig) != 0 && exp >= 0 && exp <= 12287 && (exp > 6176 ==> 10 * u128(sig) > M)
@@ -3848,3 +3849,21 @@ package decimal128
 //@ assert before "return v, err, eq": !special(d) ==> !special(v) && rs(V, XE) == XC
 //@ apply before "return v, err, eq" when {FIN}: cmpmag_is_real_order(V, V, XC, XE, C, E)
 //@ props C06
+
+// Canonical(d) is Equal to d with d's sign and class, and Canonical is idempotent (C19): the second
+// application returns the same sign, coefficient and exponent (the normal form is unique, lemma nf_unique).
+//@ func verifCanonical
+//@ returns (c, cc, eq)
+//@ logical V real
+//@ define FIN = (!special(d) && coef(d) != 0)
+//@ requires FIN ==> V > 0 && rs(V, bexp(d)) == coef(d)
+//@ call Decimal.Canonical#1: V = V
+//@ call Decimal.Canonical#2: V = V
+//@ apply before "return c, cc, eq" when {FIN}: nf_unique(V, coef(c), bexp(c), coef(cc), bexp(cc))
+//@ apply before "return c, cc, eq" when {FIN}: cmpmag_is_real_order(V, V, coef(c), bexp(c), coef(d), bexp(d))
+//@ ensures isnan(d) ==> isnan(c) && cc == c && !eq
+//@ ensures isinf(d) ==> isinf(c) && sign(c) == sign(d) && cc == c && eq
+//@ ensures !special(d) && coef(d) == 0 ==> cc == c && lo(c) == 0 && hi(c) == ite(sign(d), 0x8000000000000000, 0)
+//@ ensures FIN ==> !special(c) && !special(cc) && sign(cc) == sign(c) && sign(c) == sign(d) && coef(cc) == coef(c) && bexp(cc) == bexp(c)
+//@ ensures !isnan(d) ==> eq
+//@ props C19
